@@ -23,8 +23,11 @@ void vh_out(const char *fmt, ...)
     if ((size_t)n >= sizeof(tmp))
 	n = sizeof(tmp) - 1;
     if (outlen + n + 1 > outcap) {
+	int saved = vh_in_lib;	/* the harness's own buffer is not a library allocation */
+	vh_in_lib = 0;
 	outcap = (outlen + n + 1) * 2;
 	outbuf = realloc(outbuf, outcap);
+	vh_in_lib = saved;
 	if (outbuf == NULL)
 	    abort();
     }
